@@ -40,6 +40,9 @@ PROPS = {
     "C19": dict(harness="lock", trusted=["Go channel and sync.Mutex semantics are the model's rules by construction (a blocked sender is woken when the slot frees; select picks any ready case)"],
                 assumptions=["blocking in the select is observed through the runtime's goroutine wait state", "the runtime's choice at a both-ready select is sampled, not forced"],
                 oracle_codes={1: "two holders of one key", 2: "map entry left at quiescence", 3: "Lock returned false without a cancellation", 4: "the holder's own Unlock panicked", 5: "Unlock of a never-held key returned normally"}),
+    "C20": dict(harness=["gcs", "bt"], race=True, harness_timeout=1500,
+                trusted=GCS_TRUST + BT_TRUST + ["the Go race detector (dynamic, schedule dependent)", "HTTP/protobuf parsing is library code: raw perturbations have no Layer A model and are judged by the oracle only"],
+                assumptions=["a hang is a request that does not return within the watchdog time", "race reports depend on the schedules the runtime happened to produce"]),
 }
 
 
@@ -102,7 +105,19 @@ def _drop_family_crash(case, step, code=None):
     return r.get("kind") == "modify" and any(m.get("kind") == "drop" for m in r.get("mods", []))
 
 
+def _weird_table_id(case, step, code=None):
+    """BT-16: table id the filesystem rejects, disk engine."""
+    return case.get("tag") == "weird-table-id" and case.get("store") == "leveldb-disk"
+
+
+def _dropall_under_scan(case, step, code=None):
+    """BT-17: DropRowRange(all) closes the DB under a scan parked at its hand-over."""
+    return case.get("tag") == "dropall-under-scan"
+
+
 KNOWN_MATCHERS = {
+    "BT-16": _weird_table_id,
+    "BT-17": _dropall_under_scan,
     "BT-12": _deleted_table_before,
     "BT-18": _drop_family_crash,
     "GCS-10": _file_add_mixture,
@@ -140,6 +155,8 @@ TEXT = {
              level="Theorems about the listing walk: with an ascending walk order the prefix abort and cursor skip lose nothing, a page is the first maxResults matching names, and following tokens yields every matching name exactly once in order (memory store, no delimiter). Delimiter pagination (GCS-1) and the file store's walk order (GCS-2) are refuted by witnesses and recorded as findings; the oracle still checks every complete pagination against the API semantics." + _CORR, note=_NOTE),
  "C18": dict(technique="Coq proof over the interleaving model (scan = read-locked sections over one snapshot per range) + forced schedules at every hand-over of real multi-message scans, both leveldb engines",
              level="Theorems about the interleaving model of a ReadRows scan that gives up the table lock while streaming, for all schedules and any number of writers: every returned row is the row's value in the snapshot taken when its range scan started (a state that existed between scan start and end, never a mixture), rows come in strictly ascending order without duplicates, rows not written during the scan are returned as stored, and the scan ends OK. Correspondence: real scans spanning several messages are parked at every hand-over while writers, deleters and read-modify-writes act on rows before/at/after the scan position; every step and the returned rows are compared with the model." + _CORR, note=_NOTE + " goleveldb's snapshot guarantee, sync.RWMutex and the Go scheduler are assumptions; DropRowRange(all) under a parked scan is finding BT-17."),
+ "C20": dict(technique="Coq proof (every error answer of both handler models leaves the stored data untouched) + oracle-judged structured perturbation of HTTP and gRPC requests, forced schedules, and concurrent mixes under the Go race detector",
+             level="Only part of this property is within reach of a proof: theorems state that in both handler models every request answered with an error leaves all stored data unchanged (for all states and requests), and the model comparison pins the status of degenerate requests. Panics inside library code, fatal runtime errors, data races and hangs cannot be expressed by an executable model; they are exhibited dynamically: thousands of perturbed HTTP requests (incl. batch wrapping) and degenerate gRPC requests judged by an oracle (returns, valid status, JSON error envelope, one batch sub-response per part, seeded data intact), a forced schedule for the known scan/clear hazard, and concurrent admin+data mixes under the race detector. Labelled partial." + _CORR, note=_NOTE + " The race detector only sees the schedules that occurred."),
  "C19": dict(technique="Coq invariant proof over an executable small-step model (any number of goroutines, keys, steps, cancellations) + step-by-step correspondence through yield hooks, exhaustive for 2 goroutines x 1 key",
              level="Theorems for every reachable state of the step model of TransientLockMap/countedLock (any number of threads and keys, any schedule, any cancellations): the inductive invariant, mutual exclusion, Lock returns true iff it acquired, a cancelled Lock holds nothing and changes no channel, no lost wake-up, independence of keys, Unlock of an unheld key panics with the state unchanged, no leak at quiescence, no deadlock. Correspondence: real goroutines are stepped through yield points at each internal step; outcome class and map size after every action are compared with the model (either select choice accepted where both are ready) and with a model-independent oracle." + _CORR, note=_NOTE + " Go channel/mutex semantics are the model's rules; the runtime's select choice is sampled."),
  "C12": dict(technique="Coq proof (branch selection of CheckAndMutateRow vs filter semantics) + differential correspondence, 3 engines",
